@@ -1112,7 +1112,8 @@ pub fn stream_unit(ctx: &mut Ctx) {
         }
         if r.chance(1, 5) {
             // damage one of the sections the lists depend on; the model reads the same bytes
-            let which = r.below(3) as u8;
+            // (the address table only when the unit's own low_pc does not live in it)
+            let which = r.below(if k.low_pc_indexed { 2 } else { 3 }) as u8;
             let bytes = match which {
                 0 => w.eff_rng.clone(),
                 1 => w.eff_loc.clone(),
